@@ -4,6 +4,7 @@ CONSTANTS
   NUin = 1
   NUout = 1
   Diag = 0
+  Part = 0
   Profile = "laws"
 INIT LInit
 NEXT LNext
